@@ -41,6 +41,7 @@ type pktSpec struct {
 	Forward  *legSpec
 	BadDenom bool // route.denom_in is not the denom of the packet on this chain
 	BadPool  bool // route names a pool that does not exist
+	Route    int  // 0 one pool; 1 parallel 1:1; 2 parallel 1:1:1; 3 parallel 0.3:0.7; 4 parallel 2:1 of (pool, series of two pools); 5 series of two pools
 	Variant  int  // which malformed memo (classes pass / invalid / panic)
 }
 
@@ -78,6 +79,39 @@ func (e *env) fwdJSON(l *legSpec) string {
 	return fmt.Sprintf(`{"receiver":"%s","port":"%s","channel":"%s","timeout":"%s","retries":%d}`, e.far.String(), prt, ch, to, l.Retries)
 }
 
+// routeJSON renders the route of the memo: a single pool, a parallel split over two or three pools
+// of the same pair (weights that do not divide most amounts), a series over the intermediate denom,
+// or a parallel split whose second branch is such a series.
+func (e *env) routeJSON(p pktSpec, din string) string {
+	pool := func(in, out string, id uint64) string {
+		if p.BadPool {
+			id = 777
+		}
+		return fmt.Sprintf(`{"denom_in":"%s","denom_out":"%s","pool":{"pool_id":"%d"}}`, in, out, id)
+	}
+	series := func(in string) string {
+		return fmt.Sprintf(`{"denom_in":"%s","denom_out":"%s","series":{"routes":[%s,%s]}}`, in, quote,
+			pool(in, mid, e.poolInMid), pool(mid, quote, e.poolMidOut))
+	}
+	par := func(in string, weights []string, branches ...string) string {
+		return fmt.Sprintf(`{"denom_in":"%s","denom_out":"%s","parallel":{"routes":[%s],"weights":["%s"]}}`, in, quote,
+			strings.Join(branches, ","), strings.Join(weights, `","`))
+	}
+	switch p.Route {
+	case 1:
+		return par(din, []string{"1", "1"}, pool(din, quote, e.pools[0]), pool(din, quote, e.pools[1]))
+	case 2:
+		return par(din, []string{"1", "1", "1"}, pool(din, quote, e.pools[0]), pool(din, quote, e.pools[1]), pool(din, quote, e.pools[2]))
+	case 3:
+		return par(din, []string{"0.3", "0.7"}, pool(din, quote, e.pools[1]), pool(din, quote, e.pools[2]))
+	case 4:
+		return par(din, []string{"2", "1"}, pool(din, quote, e.pools[0]), series(din))
+	case 5:
+		return series(din)
+	}
+	return pool(din, quote, e.pools[0])
+}
+
 func (e *env) memo(p pktSpec) string {
 	switch p.Class {
 	case "pass":
@@ -89,10 +123,6 @@ func (e *env) memo(p pktSpec) string {
 	if p.BadDenom {
 		din = quote
 	}
-	pool := e.poolID
-	if p.BadPool {
-		pool = 777
-	}
 	var sb strings.Builder
 	sb.WriteString(`{"swap":{`)
 	switch p.Prov {
@@ -101,7 +131,7 @@ func (e *env) memo(p pktSpec) string {
 	case 2:
 		sb.WriteString(`"interface_provider":"not-an-address",`)
 	}
-	sb.WriteString(fmt.Sprintf(`"route":{"denom_in":"%s","denom_out":"%s","pool":{"pool_id":"%d"}},`, din, quote, pool))
+	sb.WriteString(`"route":` + e.routeJSON(p, din) + `,`)
 	if p.Class == "invalid" {
 		switch p.Variant % 3 {
 		case 0: // min_amount_out must be positive
@@ -280,7 +310,7 @@ func (r *runner) observe() rawView {
 	v := rawView{Keys: map[[2]int64][]string{}, Legs: map[[2]int64][]string{}}
 	z := func(x sdkmath.Int) string { return emit.Z(x.BigInt()) }
 	v.Bal = []string{z(e.bal(e.mod, e.denomIn)), z(e.bal(e.mod, quote)), z(e.bal(e.prov, e.denomIn)), z(e.bal(e.prov, quote)),
-		z(e.locked(e.denomIn)), z(e.locked(quote))}
+		z(e.locked(e.denomIn)), z(e.locked(quote)), z(e.bal(e.mod, mid)), z(e.modRest())}
 	for _, a := range e.rcv {
 		v.Bal = append(v.Bal, z(e.bal(a, e.denomIn)), z(e.bal(a, quote)))
 	}
@@ -425,7 +455,7 @@ func (r *runner) legDenom(data []byte) (int64, *big.Int, string) {
 	return 1, amt, d.Sender
 }
 
-// quote asks the real keeper what the route execution would give on the current state
+// quote obtains the outcome of the route execution on the current state from the real keeper
 func (r *runner) quote(p pktSpec) string {
 	e := r.e
 	if p.Class != "swap" || r.classify(e.memo(p)) != "swap" {
@@ -445,10 +475,18 @@ func (r *runner) quote(p pktSpec) string {
 		}()
 		var res swaptypes.RouteResult
 		var err error
+		// the route is executed for real, from the (well funded) LP account, in a context that is thrown
+		// away: a calculation query alone is not the oracle, an executed route can fail where the quote
+		// succeeds (e.g. a parallel branch whose share rounds to zero)
 		if p.ExactOut {
-			res, _, err = e.h.App.SwapKeeper.CalculateResultExactAmountOut(ctx, p.Prov != 0, *m.Swap.Route, sdkmath.NewInt(p.Arg))
+			prov := ""
+			if p.Prov != 0 {
+				prov = e.prov.String()
+			}
+			huge, _ := sdkmath.NewIntFromString("100000000000000000000000")
+			res, _, err = e.h.App.SwapKeeper.SwapExactAmountOut(ctx, e.lp, prov, *m.Swap.Route, huge, sdkmath.NewInt(p.Arg))
 		} else {
-			res, _, err = e.h.App.SwapKeeper.CalculateResultExactAmountIn(ctx, p.Prov != 0, *m.Swap.Route, sdkmath.NewInt(p.Amount))
+			res, _, err = e.h.App.SwapKeeper.SwapExactAmountIn(ctx, e.lp, "", *m.Swap.Route, sdkmath.NewInt(p.Amount), sdkmath.ZeroInt())
 		}
 		if err == nil {
 			out = fmt.Sprintf("(Ok (%s, %s))", emit.Z(res.TokenIn.Amount.BigInt()), emit.Z(res.TokenOut.Amount.BigInt()))
